@@ -41,6 +41,7 @@ def answer (line : String) : String :=
     | none => "bad-op"
   | "print" :: rest => withTree rest fun t _ =>
       " ".intercalate ("toks" :: (printRoot showRat t).map Tok.toWire)
+  | "str" :: rest => withTree rest fun t _ => s!"text {textToWire (strChars showRat none t)}"
   | "reparse" :: rest => withTree rest fun t _ =>
       match parseToks (printRoot showRat t) with
       | .ok e => s!"ok {e.toWire}"
